@@ -68,21 +68,33 @@ CONFIGS = {}
 
 # --- one configuration per owning set: 2 parents x 3 children, the whole MutableSet interface,
 #     one parent attached to an IR and the other detached (so cache updates on both paths).
-CONFIGS["Rel_sec"] = _rel("sec", ["m1", "m2"], ["s1", "s2", "s3"], "Modules", "Sections", "sec",
-                          extra={"IRs": {"i1", "i2"}}, attach=[("m1", "i1"), ("m2", "i2")])
-CONFIGS["Rel_sym"] = _rel("sym", ["m1", "m2"], ["y1", "y2", "y3"], "Modules", "Symbols", "sym",
-                          extra={"IRs": {"i1", "i2"}}, attach=[("m1", "i1"), ("m2", "i2")])
-CONFIGS["Rel_prx"] = _rel("prx", ["m1", "m2"], ["p1", "p2", "p3"], "Modules", "Proxies", "prx",
-                          extra={"IRs": {"i1", "i2"}}, attach=[("m1", "i1"), ("m2", "i2")])
-CONFIGS["Rel_biv"] = _rel("biv", ["s1", "s2"], ["v1", "v2", "v3"], "Sections", "Intervals", "biv",
-                          extra={"IRs": {"i1", "i2"}, "Modules": {"m1", "m2"}},
-                          attach=[("m1", "i1"), ("m2", "i2"), ("s1", "m1"), ("s2", "m2")])
-CONFIGS["Rel_blk"] = _rel("blk", ["v1", "v2"], ["c1", "d1", "d2"], "Intervals", "Blocks", "blk",
-                          extra={"IRs": {"i1", "i2"}, "Modules": {"m1", "m2"}, "Sections": {"s1", "s2"},
-                                 "CodeBlocks": {"c1"}, "DataBlocks": {"d1", "d2"}},
-                          attach=[("m1", "i1"), ("m2", "i2"), ("s1", "m1"), ("s2", "m2"), ("v1", "s1"), ("v2", "s2")])
-for _k in ("Rel_blk",):
-    CONFIGS[_k].pop("Blocks", None)
+# Three placements of the second parent: detached, in the same IR as the first, in another IR.
+def _rels(suffix, second):
+    """second: None (detached), "i1" (same IR) or "i2" (another IR)"""
+    def link(chain):
+        return [x for x in chain if x is not None]
+    m2 = ("m2", second) if second else None
+    irs = {"i1", "i2"} if second == "i2" else {"i1"}
+    CONFIGS["Rel_sec" + suffix] = _rel("sec", ["m1", "m2"], ["s1", "s2", "s3"], "Modules", "Sections", "sec",
+                                       extra={"IRs": irs}, attach=link([("m1", "i1"), m2]))
+    CONFIGS["Rel_sym" + suffix] = _rel("sym", ["m1", "m2"], ["y1", "y2", "y3"], "Modules", "Symbols", "sym",
+                                       extra={"IRs": irs}, attach=link([("m1", "i1"), m2]))
+    CONFIGS["Rel_prx" + suffix] = _rel("prx", ["m1", "m2"], ["p1", "p2", "p3"], "Modules", "Proxies", "prx",
+                                       extra={"IRs": irs}, attach=link([("m1", "i1"), m2]))
+    CONFIGS["Rel_biv" + suffix] = _rel("biv", ["s1", "s2"], ["v1", "v2", "v3"], "Sections", "Intervals", "biv",
+                                       extra={"IRs": irs, "Modules": {"m1", "m2"}},
+                                       attach=link([("m1", "i1"), m2, ("s1", "m1"), ("s2", "m2") if second else None]))
+    CONFIGS["Rel_blk" + suffix] = _rel("blk", ["v1", "v2"], ["c1", "d1", "d2"], "Intervals", "Blocks", "blk",
+                                       extra={"IRs": irs, "Modules": {"m1", "m2"}, "Sections": {"s1", "s2"},
+                                              "CodeBlocks": {"c1"}, "DataBlocks": {"d1", "d2"}},
+                                       attach=link([("m1", "i1"), m2, ("s1", "m1"), ("s2", "m2") if second else None,
+                                                    ("v1", "s1"), ("v2", "s2") if second else None]))
+    CONFIGS["Rel_blk" + suffix].pop("Blocks", None)
+
+
+_rels("", None)
+_rels("_same", "i1")
+_rels("_other", "i2")
 
 # --- the module list: 2 IRs x 3 modules, the whole MutableSequence interface
 CONFIGS["ModList"] = dict(
@@ -220,7 +232,7 @@ BYTE_KEYS = {"mods", "kids", "par", "addr", "isz", "off", "bsz", "bytes", "baddr
 CONFIGS["Bytes"] = dict(
     IRs={"i1"}, Modules={"m1"}, Sections={"s1"}, Intervals={"v1"}, CodeBlocks={"c1"},
     Addrs={5}, ISizes={0, 1, 2, 3}, Offs={0, 1, 2}, BSizes={0, 1, 3}, ByteVals={0, 7}, MaxBytes=3,
-    Families={"geom", "bytes", "reload"}, Attach0=[("m1", "i1"), ("s1", "m1"), ("v1", "s1"), ("c1", "v1")],
+    Families={"geom", "bytes", "reload", "ctor"}, Attach0=[("m1", "i1"), ("s1", "m1"), ("v1", "s1"), ("c1", "v1")],
     EmitKeys=set(BYTE_KEYS))
 CONFIGS["BytesQ"] = dict(CONFIGS["Bytes"], ISizes={0, 2, 3}, Offs={0, 2}, BSizes={0, 3}, ByteVals={7}, MaxBytes=3)
 
@@ -248,12 +260,15 @@ def proto_base(schema):
     labels = {"nolabel"} | {"L%d%d%d" % (k, c, d) for k in range(n["EdgeType"]) for c in (0, 1) for d in (0, 1)}
     return dict(
         IRs={"i1"}, Modules={"m1", "m2"}, Sections={"s1", "s2"}, Intervals={"v1", "v2"}, CodeBlocks={"c1", "c2"},
-        DataBlocks={"d1"}, Proxies={"p1"}, Symbols={"y1", "y2", "y3"}, Exprs={"e1", "e2"},
-        ExprKind={"e1": "ac", "e2": "aa"}, ExprSym={"e1": "y1", "e2": "y1"}, ExprSym2={"e1": "none", "e2": "y2"},
+        DataBlocks={"d1"}, Proxies={"p1"}, Symbols={"y1", "y2", "y3"}, Exprs={"e1", "e2", "e3", "e4"},
+        # two expressions of each kind, so that state shared between separately built ones shows
+        ExprKind={"e1": "ac", "e2": "aa", "e3": "ac", "e4": "aa"},
+        ExprSym={"e1": "y1", "e2": "y1", "e3": "y3", "e4": "y3"},
+        ExprSym2={"e1": "none", "e2": "y2", "e3": "none", "e4": "y3"},
         Attach0=[("m1", "i1"), ("m2", "i1"), ("s1", "m1"), ("s2", "m2"), ("v1", "s1"), ("v2", "s2"), ("c1", "v1"),
                  ("d1", "v1"), ("c2", "v2"), ("p1", "m1"), ("y1", "m1"), ("y2", "m1"), ("y3", "m2")],
         Pay0={("y1", "c1"), ("y2", "#0"), ("y3", "c2")}, Entry0={("m1", "c1")},
-        Symx0={("v1", 0, "e1"), ("v1", 3, "e2")},
+        Symx0={("v1", 0, "e1"), ("v1", 3, "e2"), ("v2", 1, "e3"), ("v2", 0, "e4")},
         Cfg0={("i1", (["c1", "c2", "p1"][k % 3], ["c1", "c2", "p1"][(k // 3) % 3], lab))
               for k, lab in enumerate(sorted(labels))} | {("i1", ("c1", "c1", "L000")), ("i1", ("c1", "c1", "nolabel"))},
         Addrs={0, 5}, ISizes={0, 4}, Offs={0, 1, 3}, BSizes={0, 2}, Names={"a", "EMPTY", "NONASCII"}, Name0="a",
@@ -291,7 +306,7 @@ def get(name, extra=None):
 
 
 def render(name, *, emit=False, invariants=None, constraints=(), consts=None, view=True,
-           extends="Gtirb", spec="Spec", postcondition=None, action_constraints=()):
+           extends="Gtirb", spec="Spec", postcondition=None, action_constraints=(), gate="SweepGate"):
     """Returns (module_name, {filename: text}, cfg_text)."""
     c = consts if consts is not None else get(name)
     mod = "MC_" + name
@@ -300,6 +315,8 @@ def render(name, *, emit=False, invariants=None, constraints=(), consts=None, vi
     for k in sorted(c):
         lines.append("c_%s == %s" % (k, tla(c[k])))
         cfg.append("  %s <- c_%s" % (k, k))
+    lines.append("c_Gate(names) == %s(names)" % gate)
+    cfg.append("  Gate <- c_Gate")
     lines.append("====")
     for inv in (ALL_INVARIANTS if invariants is None else invariants):
         cfg.append("INVARIANT %s" % inv)
